@@ -459,6 +459,12 @@ def World.send (w : World) (m : Msg) (payload : Bytes) (sendOk : Bool) : World Ã
             else c
           ({ w with conns := setConn id c' w.conns }, [.sent (frame payload)])
 
+/-- any sequence of `_handle_read` calls, on any connections in any order; events tagged with the connection -/
+def World.run (w : World) : List (Nat Ã— Bytes) â†’ World Ã— List (Nat Ã— Ev)
+  | [] => (w, [])
+  | (i, d) :: ops =>
+    ((World.run (w.recv i d).1 ops).1, (w.recv i d).2.map (fun e => (i, e)) ++ (World.run (w.recv i d).1 ops).2)
+
 inductive ConnectErr
   | invalidName               -- QMI_UsageException: peer context name starts with "$"
   | duplicate                 -- QMI_UsageException: already connected
